@@ -216,6 +216,88 @@ def main():
             if res != want:
                 out["extra_bad"].append({"exp": "A: make_jvp(%s)(%r)(%r), B: make_jvp(%s)(%r)(%r), both open at once" % (na_, xa, va, nb_, xb, vb),
                                          "plan": {}, "gaps": [], "res": res, "solo": want, "b_ok": False, "b": nb_})
+    # ---- ONE operator object shared by two threads: thread A is suspended inside the user's function (or between obtaining
+    #      a linearisation and using it) while thread B uses the same object on other arguments from start to end; each
+    #      thread gets what it gets alone ----
+    import numpy as onp
+    from autograd import (make_vjp as _mv, jacobian as _jac, value_and_grad as _vag, hessian_vector_product as _hvp, make_hvp as _mhvp,
+                          tensor_jacobian_product as _tjp, elementwise_grad as _eg, hessian as _hes, make_ggnvp as _ggn, holomorphic_grad as _hg)
+    hooks = threading.local()
+
+    def yielding(f):
+        def g(*a, **k):
+            r = f(*a, **k)
+            h = getattr(hooks, "hook", None)
+            if h is not None:
+                h()
+            return r
+        return g
+    energy = yielding(lambda x, c=1.0: anp.sum(x ** 4) * c + anp.prod(x))
+    vecf = yielding(lambda x, c=1.0: anp.tanh(x * c) * x[::-1])
+    xa_, xb_ = onp.array([1.0, 2.0, -1.5]), onp.array([0.5, -0.7, 2.0])
+    va_, vb_ = onp.array([1.0, 0.0, 2.0]), onp.array([-3.0, 1.0, 0.5])
+    shared = {
+        "grad": (_gr(energy), lambda op, x, v, c: op(x, c)),
+        "grad argnum by keyword args": (_gr(energy), lambda op, x, v, c: op(x, c=c)),
+        "value_and_grad": (_vag(energy), lambda op, x, v, c: op(x, c)[1]),
+        "jacobian": (_jac(vecf), lambda op, x, v, c: op(x, c)),
+        "elementwise_grad": (_eg(vecf), lambda op, x, v, c: op(x, c)),
+        "hessian": (_hes(energy), lambda op, x, v, c: op(x, c)),
+        "hessian_vector_product": (_hvp(energy), lambda op, x, v, c: op(x, c, v)),
+        "tensor_jacobian_product": (_tjp(vecf), lambda op, x, v, c: op(x, c, v)),
+        "make_jvp (linearise, then push)": (_mj(vecf), lambda op, x, v, c: op(x, c)(v)[1]),
+        "make_vjp (linearise, then pull)": (_mv(vecf), lambda op, x, v, c: op(x, c)[0](v)),
+        "make_hvp": (_mhvp(energy), lambda op, x, v, c: op(x, c)[0](v)),
+        "make_ggnvp": (_ggn(vecf), lambda op, x, v, c: op(x, c)(v)),
+    }
+    for oname, (op, use) in shared.items():
+        try:
+            want = {"A": onp.asarray(use(op, xa_, va_, 2.0)).tolist(), "B": onp.asarray(use(op, xb_, vb_, 3.0)).tolist()}
+        except Exception as ex:
+            out["extra_bad"].append({"exp": "shared operator %s fails alone: %r" % (oname, ex), "plan": {}, "gaps": [], "res": {}, "solo": {}, "b_ok": False, "b": oname})
+            continue
+        for lazy_split in (False, True):
+            a_in, b_done = threading.Event(), threading.Event()
+            res = {}
+
+            def wa():
+                fired = []
+
+                def hook():
+                    if not fired:
+                        fired.append(1)
+                        a_in.set()
+                        b_done.wait(10)
+                try:
+                    if lazy_split and oname.startswith("make_"):
+                        lin = op(xa_, 2.0)               # linearise ...
+                        a_in.set()
+                        b_done.wait(10)                  # ... B works with the same operator object ...
+                        r = lin(va_) if oname.startswith(("make_ggnvp",)) else (lin(va_)[1] if oname.startswith("make_jvp") else lin[0](va_))
+                    else:
+                        hooks.hook = hook
+                        r = use(op, xa_, va_, 2.0)
+                    res["A"] = onp.asarray(r).tolist()
+                except Exception as ex:
+                    res["A"] = "raised " + repr(ex)
+                finally:
+                    a_in.set()
+
+            def wb():
+                a_in.wait(10)
+                try:
+                    res["B"] = onp.asarray(use(op, xb_, vb_, 3.0)).tolist()
+                except Exception as ex:
+                    res["B"] = "raised " + repr(ex)
+                finally:
+                    b_done.set()
+            t1, t2 = threading.Thread(target=wa, daemon=True), threading.Thread(target=wb, daemon=True)
+            t1.start(); t2.start(); t1.join(30); t2.join(30)
+            dist("shared-operator-object")
+            if res != want:
+                out["extra_bad"].append({"exp": "one %s object used by two threads (A suspended %s while B runs)" % (oname, "between linearising and using" if lazy_split else "inside the function"),
+                                         "plan": {}, "gaps": [], "res": res, "solo": want, "b_ok": False, "b": oname})
+                break
     print(json.dumps(out))
 
 
